@@ -25,6 +25,7 @@ fi
 if [ "$mode" = seeds ] || [ "$mode" = all ]; then
   [ -n "${SKIP_PARALLEL:-}" ] || python3 tools/mutants.py seeds -j 12 > .build/selftest-seeds-parallel.log 2>&1
   grep -v " caught " .build/selftest-seeds-parallel.log | sed 's/^/MISSED   /' && true
+  grep "undetected-as-documented" .build/selftest-seeds-parallel.log | sed 's/^/DOCUMENTED LIMIT  /' && true
   n=$(grep -c " caught " .build/selftest-seeds-parallel.log); echo "caught   $n seeds of C01..C17 (parallel scratch copies)"
   if grep -qv " caught " .build/selftest-seeds-parallel.log; then fail=1; fi
 fi
